@@ -14,9 +14,17 @@
    or raises.  Each agent invocation is counted and spends [cost] units of the
    shared energy store before it answers or raises.
 
-   [legacy = true] is the pre-repair classification (commit before 044cd88):
-   every blocked result, including executor FAILUREs, was treated as an
-   intentional block.  The property theorems are about [legacy = false]. *)
+   Classification of an answered request for the breaker ("Update circuit
+   breaker" in run()); success-and-not-blocked is always a success, otherwise:
+     current code (3c979ee): a blocked result is skipped unless the EXECUTOR's
+       verdict is FAILURE; everything else is a failure;
+     [interim = true] (044cd88 .. 3c979ee): a blocked result was skipped only if
+       it was also successful, so BLOCK verdicts that the gate turns into an
+       unsuccessful result (OR: both reject; EXECUTOR_PRIORITY: executor BLOCK;
+       signal mismatch) were counted as failures;
+     [legacy = true] (before 044cd88): every blocked result, executor FAILUREs
+       included, was skipped.
+   The property theorems are about [legacy = false], [interim = false]. *)
 From Coq Require Import ZArith List Bool.
 Import ListNotations.
 Open Scope Z_scope.
@@ -36,7 +44,8 @@ Inductive action := ASuccess | ABlocked | AFailure | ASkipped | AError | ACircui
 
 (* the part of LoopResult the breaker and the caller look at *)
 Record result := mkRes {
-  r_success : bool; r_blocked : bool; r_action : action; r_cached : bool }.
+  r_success : bool; r_blocked : bool; r_action : action; r_cached : bool;
+  r_exec : option zverdict }.   (* executor_output: the executor's verdict, when there is one *)
 
 Record cfg := mkCfg {
   enabled : bool;        (* enable_circuit_breaker *)
@@ -46,7 +55,8 @@ Record cfg := mkCfg {
   ttl : Z;               (* cache_ttl, microseconds *)
   glogic : gate;
   cost : Z;              (* energy one agent invocation spends *)
-  legacy : bool }.
+  legacy : bool;
+  interim : bool }.
 
 Record breaker := mkB {
   circ : circuit;
@@ -76,13 +86,13 @@ Inductive op := Tick (d : Z) | Run (r : request) | Reset | ClearCache.
 (* ---------------------------------------------------------------------- *)
 (* _apply_gate_logic                                                       *)
 
-Definition res_ok := mkRes true false ASuccess false.
-Definition res_blocked := mkRes true true ABlocked false.
-Definition res_failure := mkRes false true AFailure false.
-Definition res_skipped := mkRes true true ASkipped false.
-Definition res_error := mkRes false true AError false.
-Definition res_rejected := mkRes false true ABlocked false.   (* OR gate: "Both agents rejected" *)
-Definition res_circuit_open := mkRes false true ACircuitOpen false.
+Definition res_ok := mkRes true false ASuccess false None.
+Definition res_blocked := mkRes true true ABlocked false None.
+Definition res_failure := mkRes false true AFailure false None.
+Definition res_skipped := mkRes true true ASkipped false None.
+Definition res_error := mkRes false true AError false None.
+Definition res_rejected := mkRes false true ABlocked false None.   (* OR gate: "Both agents rejected" *)
+Definition res_circuit_open := mkRes false true ACircuitOpen false None.
 
 Definition z_permits (z : zverdict) : bool :=
   match z with ZExecute | ZPermit => true | _ => false end.
@@ -91,7 +101,7 @@ Definition z_fails (z : zverdict) : bool := match z with ZFailure => true | _ =>
 Definition y_permits (y : yverdict) : bool := match y with YPermit => true | _ => false end.
 Definition y_blocks (y : yverdict) : bool := match y with YBlock => true | _ => false end.
 
-Definition gate_result (g : gate) (z : zverdict) (y : yverdict) : result :=
+Definition gate_table (g : gate) (z : zverdict) (y : yverdict) : result :=
   match g with
   | GAnd | GUnanimous =>
       if y_blocks y then res_blocked
@@ -111,6 +121,11 @@ Definition gate_result (g : gate) (z : zverdict) (y : yverdict) : result :=
       else res_error
   | GMajority => res_error
   end.
+
+(* every gate result carries both agents' outputs *)
+Definition gate_result (g : gate) (z : zverdict) (y : yverdict) : result :=
+  let r := gate_table g z y in
+  mkRes (r_success r) (r_blocked r) (r_action r) false (Some z).
 
 (* ---------------------------------------------------------------------- *)
 (* the breaker automaton                                                   *)
@@ -151,9 +166,14 @@ Definition reset_breaker (b : breaker) : breaker :=
   mkB Closed 0 (scount b) (last_failure b) (last_success b) (trips b) (total_errors b).
 
 (* "Update circuit breaker" in run() *)
+Definition exec_fails (res : result) : bool :=
+  match r_exec res with Some z => z_fails z | None => false end.
+
 Definition classify (c : cfg) (t : Z) (res : result) (b : breaker) : breaker :=
   if r_success res && negb (r_blocked res) then record_success t b
-  else if (if legacy c then r_blocked res else r_blocked res && r_success res) then b
+  else if (if legacy c then r_blocked res
+           else if interim c then r_blocked res && r_success res
+           else r_blocked res && negb (exec_fails res)) then b
   else record_failure (threshold c) t b.
 
 (* ---------------------------------------------------------------------- *)
@@ -209,7 +229,7 @@ Definition cache_store (c : cfg) (s : state) (k : Z) (res : result) : state :=
   if cache_on c then set_cache s ((k, (res, now s)) :: remove k (cache s)) else s.
 
 Definition mark_cached (r : result) : result :=
-  mkRes (r_success r) (r_blocked r) (r_action r) true.
+  mkRes (r_success r) (r_blocked r) (r_action r) true (r_exec r).
 
 (* ---------------------------------------------------------------------- *)
 (* run()                                                                   *)
@@ -280,6 +300,11 @@ Definition action_code (a : action) : Z :=
   end.
 Definition op_code (o : op) : Z :=
   match o with Tick _ => 0 | Run _ => 1 | Reset => 2 | ClearCache => 3 end.
+Definition exec_code (o : option zverdict) : Z :=
+  match o with
+  | None => 0 | Some ZExecute => 1 | Some ZPermit => 2 | Some ZBlock => 3 | Some ZFailure => 4
+  | Some ZOther => 5
+  end.
 Definition oz (o : option Z) : list Z := match o with Some v => [1; v] | None => [0; 0] end.
 
 Definition obs_row (x : op * state * option result) : list Z :=
@@ -287,8 +312,9 @@ Definition obs_row (x : op * state * option result) : list Z :=
   let b := br s in
   [op_code o]
   ++ match r with
-     | Some res => [1; b2z (r_success res); b2z (r_blocked res); action_code (r_action res); b2z (r_cached res)]
-     | None => [0; 0; 0; 0; 0]
+     | Some res => [1; b2z (r_success res); b2z (r_blocked res); action_code (r_action res);
+                    b2z (r_cached res); exec_code (r_exec res)]
+     | None => [0; 0; 0; 0; 0; 0]
      end
   ++ [circ_code (circ b); fcount b; scount b] ++ oz (last_failure b) ++ oz (last_success b)
   ++ [trips b; total_errors b; zcalls s; ycalls s; spent s;
